@@ -8,7 +8,7 @@ set_option linter.unusedSimpArgs false
 set_option linter.unusedVariables false
 
 /-! ### task-side invariants -/
-def earlyPc (pc : PC) : Bool := match pc with | .check1 | .event | .check2 | .set => true | _ => false
+def earlyPc (pc : PC) : Bool := match pc with | .created | .check1 | .event | .check2 | .set => true | _ => false
 def pastWait (pc : PC) : Bool := match pc with | .deferReset | .post | .cancel => true | _ => false
 
 /-- a task's connection id is a real connection -/
@@ -161,6 +161,7 @@ theorem step_tasksExt {cfg : Cfg} {s s' : St} {a : Act} (hna : ∀ i, a ≠ .tas
   | task i => exact absurd rfl (hna i)
   | back c0 => exact stepBack_tasksExt h
   | spawn m d ev => simp [step] at h; subst h; exact tasksExt_spawn _ _ rfl rfl
+  | create d tag => simp [step] at h; subst h; exact tasksExt_spawn _ _ rfl rfl
   | release c0 =>
     simp only [step] at h
     split at h
@@ -270,6 +271,11 @@ theorem step_A {cfg : Cfg} {s s' : St} {a : Act} (hat : cfg.atomicSet = true) (h
     have := step_mono hJP h c
     simp [step] at h; subst h
     exact hA c hc (this hc hatt)
+  | create d tag =>
+    intro c hc hatt
+    have := step_mono hJP h c
+    simp [step] at h; subst h
+    exact hA c hc (this hc hatt)
   | release c0 =>
     intro c hc hatt
     have hm := step_mono hJP h c
@@ -315,6 +321,7 @@ theorem step_TC {cfg : Cfg} {s s' : St} {a : Act} (hTC : TC s) (h : step cfg s a
   | task i => exact stepTask_TC hTC h
   | back c0 => exact TC_ext hTC (step_nconns h) (step_tasksExt (by intro i; simp) h)
   | spawn m d ev => exact TC_ext hTC (step_nconns h) (step_tasksExt (by intro i; simp) h)
+  | create d tag => exact TC_ext hTC (step_nconns h) (step_tasksExt (by intro i; simp) h)
   | release c0 => exact TC_ext hTC (step_nconns h) (step_tasksExt (by intro i; simp) h)
   | kick c0 => exact TC_ext hTC (step_nconns h) (step_tasksExt (by intro i; simp) h)
   | drop c0 => exact TC_ext hTC (step_nconns h) (step_tasksExt (by intro i; simp) h)
@@ -325,6 +332,7 @@ theorem step_TN {cfg : Cfg} {s s' : St} {a : Act} (hTN : TN s) (h : step cfg s a
   | task i => exact stepTask_TN hTN h
   | back c0 => exact TN_ext hTN (step_tasksExt (by intro i; simp) h)
   | spawn m d ev => exact TN_ext hTN (step_tasksExt (by intro i; simp) h)
+  | create d tag => exact TN_ext hTN (step_tasksExt (by intro i; simp) h)
   | release c0 => exact TN_ext hTN (step_tasksExt (by intro i; simp) h)
   | kick c0 => exact TN_ext hTN (step_tasksExt (by intro i; simp) h)
   | drop c0 => exact TN_ext hTN (step_tasksExt (by intro i; simp) h)
@@ -336,6 +344,7 @@ theorem step_W {cfg : Cfg} {s s' : St} {a : Act} (hJP : JP s) (hTC : TC s) (hTN 
   | task i => exact stepTask_W hJP hTC hTN hW h
   | back c0 => exact W_ext hTC hW (step_tasksExt (by intro i; simp) h) (fun c hc => step_mono hJP h c hc)
   | spawn m d ev => exact W_ext hTC hW (step_tasksExt (by intro i; simp) h) (fun c hc => step_mono hJP h c hc)
+  | create d tag => exact W_ext hTC hW (step_tasksExt (by intro i; simp) h) (fun c hc => step_mono hJP h c hc)
   | release c0 => exact W_ext hTC hW (step_tasksExt (by intro i; simp) h) (fun c hc => step_mono hJP h c hc)
   | kick c0 => exact W_ext hTC hW (step_tasksExt (by intro i; simp) h) (fun c hc => step_mono hJP h c hc)
   | drop c0 => exact W_ext hTC hW (step_tasksExt (by intro i; simp) h) (fun c hc => step_mono hJP h c hc)
